@@ -79,7 +79,7 @@ def main():
   alog.set_verbosity(alog.ERROR)
   from ai_edge_quantizer import quantizer, model_validator
   from ai_edge_quantizer.utils import validation_utils
-  r = tlc.run("C18_validate", "Validate", dict(Names='{"a", "b", "c", "d"}'), invariants=["PartitionOK", "ReturnsForQuantizedPair"], workers=16, timeout=1800)
+  r = tlc.run("C18_validate", "Validate", dict(Names='{"a", "b", "c", "d"}', Fixes='{"inout"}'), invariants=["PartitionOK", "ReturnsForQuantizedPair"], workers=16, timeout=1800)
   if r.error or r.rc not in (0, 12):
     chk.machinery("TLC failed: %s" % r.out[-800:])
   if r.violated:
